@@ -112,6 +112,8 @@ def gen_model(rng, features=None):
             c['savorize'] = gen_savorize(rng, c)
         if hooks and rng.random() < 0.12:
             c['recognize'] = gen_recognize(rng, c, avail)
+        if features and 'sweeten' in features and rng.random() < 0.3:
+            c['sweeten'] = gen_sweeten(rng, c)
         if rng.random() < 0.12 and params:
             p = rng.choice(params)
             if p['type'] in (('int',), ('str',), ('bool',)):
@@ -135,6 +137,8 @@ def gen_model(rng, features=None):
                      kind=rng.choice(['str', 'userstring', 'yatimlstring']))
             if rng.random() < 0.3:
                 c['init_raises'] = ('', 'forbidden')
+            if features and 'sweeten' in features and rng.random() < 0.3:
+                c['sweeten'] = [('set_value_upper',)] if False else []
         elif r < 0.5 and plain:
             # a subclass
             base = rng.choice(plain)
@@ -180,6 +184,22 @@ def gen_model(rng, features=None):
     for c in spec:
         c.pop('all_params_tmp', None)
     return spec, cands
+
+
+def gen_sweeten(rng, c):
+    names = [p['name'] for p in c['params']]
+    r = rng.random()
+    if r < 0.3:
+        return [('u2d',)]
+    if r < 0.5 and names:
+        return [('remove', rng.choice(names))] if rng.random() < 0.3 else [('set', 'sweetened_by', c['name'])]
+    if r < 0.65 and names:
+        return [('rename', rng.choice(names), 'renamed')]
+    if r < 0.8 and names:
+        return [('seq2map', rng.choice(names), 'name', None, True)]
+    if r < 0.9 and names:
+        return [('idx2map', rng.choice(names), 'name', None)]
+    return []
 
 
 def gen_savorize(rng, c):
